@@ -155,6 +155,14 @@ Proof.
   apply IH; assumption.
 Qed.
 
+Lemma first_live_some h c y : first_live h c (Some y) -> exists nd, nth_error h y = Some nd /\ live nd.
+Proof.
+  intros H. remember (Some y) as m eqn:E. induction H as [|n nd Hn Hl|n nd m Hn Hl Hw IH].
+  - discriminate.
+  - inversion E; subst. eauto.
+  - auto.
+Qed.
+
 (* ---------- the group invariant ---------- *)
 
 Record GInv (g : group) (ids : list nid) : Prop := {
@@ -182,6 +190,9 @@ Proof.
   - exists (Some n). split; [econstructor; eauto|]. intros x E; inversion E; subst. eapply gi_live; eauto.
   - destruct (gi_dead _ _ G n nd Hn Hd) as [m [H1 H2]]. exists m. split; [eapply fl_dead; eauto|exact H2].
 Qed.
+
+Lemma ginv_in_heap g ids : GInv g ids -> forall n, In n ids -> exists nd, nth_error (heap g) n = Some nd.
+Proof. intros G n Hn. destruct (lchain_in _ _ _ (gi_chain _ _ G) n Hn) as [nd [H _]]. eauto. Qed.
 
 Lemma ginv_member g ids : GInv g ids -> forall a x b, ids = a ++ x :: b ->
   exists nd, nth_error (heap g) x = Some nd /\ live nd /\ nxt nd = hd_error b /\ prv nd = last_opt a.
